@@ -105,7 +105,7 @@ theorem resolvePattern_out {env : Env} {L : Bytes → Prop} {p : Pattern Bytes} 
   · rename_i v
     have : MarkFree (match env.transform with | some f => f v | .none => v) :=
       hp (.text v) (by simp [patAtoms, elemsAtoms, elemAtoms])
-    exact ⟨⟨_, by simp, H.lang.mf this⟩, rfl⟩
+    exact ⟨⟨_, rfl, H.lang.mf this⟩, rfl⟩
   · exact (inv_all H fuel).writePattern p [] sc hp hsc
 
 theorem resolvePattern_rel {env : Env} {p : Pattern Bytes} (F : NoIsolatedValueFlow env p) (fuel : Nat) (sc : Scope) :
